@@ -27,6 +27,9 @@ Proof.
   destruct ((k' =? k) && (x' =? x)) eqn:E; auto.
   apply andb_true_iff in E as [E1 E2]. apply Z.eqb_eq in E1, E2. subst. congruence.
 Qed.
+Lemma catch_E r : rE (catch_value_error r) = rE r.
+Proof. reflexivity. Qed.
+
 Lemma exc_iscb k x n e : filter (iscb k x) (exc_ev n e) = [].
 Proof. destruct e; reflexivity. Qed.
 
@@ -205,7 +208,7 @@ Proof.
     + now apply RA.
     + apply Same. apply UA.
     + now apply reg_comp_agent_added.
-    + apply Same. left. unfold va. now rewrite unreg_comp_agents.
+    + apply Same. left. unfold va. now rewrite ?catch_S, unreg_comp_agents.
     + apply Same. left. unfold va. now rewrite reg_rep_agents.
     + apply Same. left. unfold va. now rewrite unreg_rep_agents.
   - now apply RA.
@@ -217,7 +220,7 @@ Proof.
   - apply Same. apply UA.
   - apply Same. left; reflexivity.
   - now apply reg_comp_agent_added.
-  - apply Same. left. unfold va. now rewrite unreg_comp_agents.
+  - apply Same. left. unfold va. now rewrite ?catch_S, unreg_comp_agents.
   - apply Same. left; reflexivity.
   - apply Same. left. destruct b; cbn [disc_recv]; unfold va; [now rewrite reg_rep_agents|now rewrite unreg_rep_agents].
   - apply Same. left; reflexivity.
@@ -392,7 +395,7 @@ Proof.
     + apply Keep. apply RA.
     + destruct (unreg_agent_kind2 s y true x H0 H1) as (_ & K). exact K.
     + apply Keep. left. apply RC.
-    + apply Keep. left. unfold va. now rewrite unreg_comp_agents.
+    + apply Keep. left. unfold va. now rewrite ?catch_S, unreg_comp_agents.
     + apply Keep. left. unfold va. now rewrite reg_rep_agents.
     + apply Keep. left. unfold va. now rewrite unreg_rep_agents.
   - apply Keep. apply RA.
@@ -400,7 +403,7 @@ Proof.
   - destruct (unreg_agent_kind2 s y false x H0 H1) as (_ & K). exact K.
   - apply Keep. left; reflexivity.
   - apply Keep. left. apply RC.
-  - apply Keep. left. unfold va. now rewrite unreg_comp_agents.
+  - apply Keep. left. unfold va. now rewrite ?catch_S, unreg_comp_agents.
   - apply Keep. left; reflexivity.
   - apply Keep. left. destruct b; cbn [disc_recv]; unfold va; [now rewrite reg_rep_agents|now rewrite unreg_rep_agents].
   - apply Keep. left; reflexivity.
@@ -562,7 +565,7 @@ Proof.
   - apply Keep. apply RC.
   - destruct (Z.eq_dec c' c) as [->|Hne]; [|apply Keep; left; apply unreg_comp_other; congruence].
     destruct (UC ag false H1) as (_ & Hag & HE & HT). exists ag. split; auto. split.
-    + rewrite HE. apply fire_iscb_same.
+    + rewrite catch_E, HE. apply fire_iscb_same.
     + right. split; [discriminate|exact HT].
   - apply Keep. left; reflexivity.
   - apply Keep. left. destruct b; cbn [disc_recv]; unfold vc; [now rewrite reg_rep_comps|now rewrite unreg_rep_comps].
@@ -857,6 +860,7 @@ Proof.
     + now rewrite unreg_rep_comps.
   - now rewrite reg_agent_comps.
   - now rewrite register_agents_comps.
+  - apply UC.
   - destruct b; cbn [disc_recv]; [now rewrite reg_rep_comps|now rewrite unreg_rep_comps].
 Qed.
 
